@@ -86,9 +86,15 @@ class JSONRPC2Connection:
             raise EOFError()
         length = self._read_header_content_length(line)
         # Keep reading headers until we find the sentinel
-        # line for the JSON request.
+        # line for the JSON request. Content-Length may come after other headers.
         while line != "\r\n":
             line = self.conn.readline()
+            if line == "":
+                raise EOFError()
+            if length is None:
+                length = self._read_header_content_length(line)
+        if length is None:
+            raise JSONRPC2ProtocolError("Missing Content-Length header")
         body = self.conn.read(length)
         log.debug(
             "RECV %s", json.dumps(json.loads(body), separators=(",", ":"), indent=2)
